@@ -586,6 +586,10 @@ def setup(params, B=None, L=None, tag="X"):
 		args = make_fargs(B, params["n_args"], params["dseed"])
 	else:
 		args = make_args(B, params["n_args"], params.get("aoff", 0))
+	# same values handed over as views into larger storages
+	X = gen.relayout(X, gen.layout_of(params, tag))[0]
+	args = [gen.relayout(a, gen.layout_of(params, tag, "arg", j))[0]
+		if isinstance(a, torch.Tensor) else a for j, a in enumerate(args)]
 	return seqs, X, xd, args
 
 
